@@ -21,3 +21,15 @@ def _f2(ctx):
 STRUCTURAL = [_f2]
 
 VALIDATION = [validate_bs4]
+
+FUNCTIONS = FUNCTIONS + [q for q in CACHE if q not in FUNCTIONS]
+SHARDS = dict(SHARDS)
+
+FUNCTIONS = FUNCTIONS + [q for q in (M + '__init__', M + 'match_nth', M + 'match_subselectors', M + 'match_past_relations', M + 'match_future_child',
+                                     M + 'match_future_relations', M + 'match_relations') if q not in FUNCTIONS]
+EXPLANATION = ('Every proved matcher contract has a postcondition that mentions only the pure function sem of (selector, tree, target). The per-call state is handled '
+               'explicitly: the hub proof includes the frame obligations that self.namespaces and self.iframe_restrict equal their entry values on every path, and the '
+               'memo tables are covered by a representation invariant (every memoised (form, button) pair is that form\'s default button; established by __init__, '
+               'required and ensured by every matcher method and every loop, preserved by match_default when it appends - via two induction lemmas) so that a '
+               'memoised answer equals the recomputed one. F2: no function of css_match.py writes to a tree node.')
+LEVEL_TEXT = EXPLANATION + ' The :lang and :indeterminate tables are covered by the same mechanism only up to an abstract invariant (their functions are still under assumed contracts; bounded history sweep).'
